@@ -76,6 +76,9 @@ def lower_unit(u, outdir):
         n = find_target(L, t)
         if 'lambda_in' in t:
             f = lower_ext.request_lambda(L, n, t)
+            if t.get('skeleton'):
+                f.skeleton = True
+                f.skeleton_returns = t.get('skeleton_returns')
         elif 'local_method_in' in t:
             f = lower_ext.request_local_method(L, n, t)
         elif 'region_in' in t:
